@@ -12,7 +12,11 @@ RULE = ("2-5 logical threads over one Queue (unlimited, or hard limit<=6 with so
         "(observations and enabled sets must agree) and checked by the sequential reference queue. Non-trivial: some "
         "operation parked and something was woken; distinct = distinct case lines.")
 TRUSTED = ["sync.Mutex / sync.Cond (FIFO wake-up) / context modelled", "the verif hooks in pubsub/queue.go mark the segment "
-           "boundaries (MANIFEST.hooks)", "burst credit is a float64: the executable model uses Lean's IEEE Float"]
+           "boundaries (MANIFEST.hooks)", "burst credit is a float64: the executable model uses Lean's IEEE Float",
+           "T-gen of the control structure (FunGen/SegsQueue.lean, rewritten from $VERIF_REPO/pubsub/queue.go on every run; "
+           "FunProps/C05Segs.lean proves the model's start/resume of Add/BlockingAdd/Remove/Wait/Len/Close equal to it): the shape "
+           "recogniser tools/go2lean/segs.go and its tables (call mapping q.doAdd/q.popFront/q.tracker.len()/cap() -> the model's "
+           "own functions, field closed, method -> Op constructor, result -> observation string)"]
 ASSUMPTIONS = ["segments are atomic (they run under q.mu)"]
 
 
